@@ -483,9 +483,9 @@ func (t *labelTracer) elems(v ssa.Value, depth int) []dirty {
 		return out
 	case *ssa.Call:
 		if calleeName(x.Common()) == "builtin append" {
-			out := t.elems(x.Common().Args[0], depth+1)
+			out := t.elems(refArgs(x.Common())[0], depth+1)
 			if len(x.Common().Args) > 1 {
-				out = append(out, t.elems(x.Common().Args[1], depth+1)...)
+				out = append(out, t.elems(refArgs(x.Common())[1], depth+1)...)
 			}
 			return out
 		}
